@@ -19,9 +19,22 @@ RS = "recurrences/solver/recurrence_solver.py"
 R = "F-solver"
 
 
+_ALIASES: Dict[str, ast.AST] = {}
+
+
+def _nz() -> Normalizer:
+    """normaliser that reads single-definition locals (`n = self.n`) as what they stand for"""
+    def cb(name):
+        v = _ALIASES.get(name)
+        if v is not None:
+            return Normalizer(int_exponents=True)(v)
+        return None
+    return Normalizer(name_cb=cb, int_exponents=True)
+
+
 def _eq(a, b) -> Optional[bool]:
     try:
-        return Normalizer(int_exponents=True)(a).equiv(Normalizer(int_exponents=True)(b))
+        return _nz()(a).equiv(_nz()(b))
     except AnalysisError:
         return None
 
@@ -183,6 +196,10 @@ def rule_geometric_sum(repo: Repo) -> List[Ob]:
     m, c = site
     selfn = m.params()[0]
     defs = Defs(m.node, selfn)
+    _ALIASES.clear()
+    for nm, vals in defs.defs.items():
+        if nm not in defs.params and len(vals) == 1 and isinstance(vals[0], ast.Attribute) and is_self_attr(vals[0], None, selfn):
+            _ALIASES[nm] = vals[0]
     k, lo, hi = c.args[1].elts
     summand = resolve_alias(c.args[0], defs)
     while isinstance(summand, ast.Call) and isinstance(summand.func, ast.Attribute) and summand.func.attr in ("simplify", "expand"):
@@ -203,8 +220,8 @@ def rule_geometric_sum(repo: Repo) -> List[Ob]:
         "the sum ends at k = n-1": _eq(hi, _p(f"{n_} - 1")),
     }
     try:
-        s_rf = Normalizer()(_p(n_)) - Normalizer()(e_hom)
-        lo_rf = Normalizer()(lo)
+        s_rf = _nz()(_p(n_)) - _nz()(e_hom)
+        lo_rf = _nz()(lo)
         checks["the homogeneous part is c**(n-s) * x(s) for the same s the sum starts at"] = s_rf.equiv(lo_rf)
     except AnalysisError:
         checks["the homogeneous part is c**(n-s) * x(s) for the same s the sum starts at"] = None
@@ -212,7 +229,8 @@ def rule_geometric_sum(repo: Repo) -> List[Ob]:
     xr = [x for x in ast.walk(summand) if isinstance(x, ast.Call) and call_name(x) in ("xreplace", "subs") and x.args and isinstance(x.args[0], ast.Dict)]
     if xr:
         d = xr[0].args[0]
-        checks["the inhomogeneous part is evaluated at k"] = bool(d.keys) and is_self_attr(d.keys[0], "n", selfn) and isinstance(d.values[0], ast.Name) and d.values[0].id == kk
+        key0 = resolve_alias(d.keys[0], defs) if d.keys else None
+        checks["the inhomogeneous part is evaluated at k"] = bool(d.keys) and is_self_attr(key0, "n", selfn) and isinstance(d.values[0], ast.Name) and d.values[0].id == kk
     bad = [t for t, v in checks.items() if v is False]
     unk = [t for t, v in checks.items() if v is None]
     if bad:
@@ -273,6 +291,95 @@ def mut_special_cases(repo: Repo) -> List[Mutant]:
     return [Mutant("scan-stops-at-first-covered-iteration", ov, "fire", "special-cases", control=True)] if ov else []
 
 
+def rule_valid_from(repo: Repo) -> List[Ob]:
+    """The summation solver returns (closed form, first n it is valid from).  Where a closed form is built from several
+    others, its validity start is the MAXIMUM of theirs: an update in the loop over the dependencies that does not
+    combine the new value with the old one lets the last dependency win."""
+    cls = repo.cls("AcyclicSolver", AC)
+    key = f"{AC}::AcyclicSolver::valid-from"
+    obs = []
+    for m in cls.all_methods:
+        for loop in [n for n in walk_no_nested(m.node) if isinstance(n, ast.For)]:
+            for st in ast.walk(loop):
+                if not (isinstance(st, ast.Assign) and isinstance(st.targets[0], ast.Tuple) and len(st.targets[0].elts) == 2 and isinstance(st.value, ast.Call)
+                        and isinstance(st.value.func, ast.Attribute) and is_self_attr(st.value.func.value, None, m.params()[0]) is False
+                        and isinstance(st.value.func.value, ast.Name) and st.value.func.value.id == m.params()[0]):
+                    continue
+                callee = cls.find_method(st.value.func.attr)
+                if callee is None:
+                    continue
+                rets = [r.value for r in walk_no_nested(callee.node) if isinstance(r, ast.Return) and isinstance(r.value, ast.Tuple) and len(r.value.elts) == 2]
+                if not rets:
+                    continue
+                vname = st.targets[0].elts[1]
+                if not isinstance(vname, ast.Name):
+                    continue
+                # is the unpacked validity start itself the accumulator that is used after the loop?
+                used_after = any(isinstance(x, ast.Name) and x.id == vname.id and getattr(x, "lineno", 0) > loop.end_lineno for x in walk_no_nested(m.node))
+                combined = [a for a in ast.walk(loop) if isinstance(a, ast.Assign) and isinstance(a.value, ast.Call) and call_name(a.value) == "max"
+                            and any(isinstance(x, ast.Name) and x.id == vname.id for x in ast.walk(a.value))]
+                if used_after and not combined:
+                    obs.append(Ob(R, key, AC, st.lineno, m.qualname, False,
+                                  f"`{src(st)[:70]}` overwrites `{vname.id}` for every dependency and the value is used after the loop: the validity start of the LAST dependency wins instead of the maximum"))
+                elif combined:
+                    obs.append(Ob(R, key, AC, combined[0].lineno, m.qualname, True, "the validity start of a combination is the maximum over its dependencies"))
+    if not obs:
+        obs.append(inconclusive(R, key, AC, cls.node.lineno, "AcyclicSolver", "accumulation of the validity start over the dependencies not recognised"))
+    return obs
+
+
+def mut_valid_from(repo: Repo) -> List[Mutant]:
+    def tr(tree):
+        fn = find_def(tree, "AcyclicSolver._get_without_zero")
+        if fn is None:
+            return False
+        for loop in [n for n in ast.walk(fn) if isinstance(n, ast.For)]:
+            for i, st in enumerate(loop.body):
+                if isinstance(st, ast.Assign) and isinstance(st.targets[0], ast.Tuple) and len(st.targets[0].elts) == 2:
+                    nxt = loop.body[i + 1] if i + 1 < len(loop.body) else None
+                    if isinstance(nxt, ast.Assign) and isinstance(nxt.value, ast.Call) and call_name(nxt.value) == "max":
+                        st.targets[0].elts[1] = nxt.targets[0]
+                        del loop.body[i + 1]
+                        return True
+        return False
+    ov = mutate_module(repo, AC, tr)
+    return [Mutant("last-dependency-wins", ov, "fire", "valid-from", control=True)] if ov else []
+
+
+def rule_option_resolution(repo: Repo) -> List[Ob]:
+    """`x = settings.x if x is None else x`: the parameter that is tested is the parameter that is used, and the
+    setting that replaces it has the same name.  (Copy-paste between neighbouring lines is the typical slip.)"""
+    obs = []
+    n = 0
+    for f in repo.functions:
+        if f.relpath.startswith(("tests/", "plots/")):
+            continue
+        for e in walk_no_nested(f.node):
+            if not isinstance(e, ast.IfExp):
+                continue
+            t = e.test
+            if not (isinstance(t, ast.Compare) and len(t.ops) == 1 and isinstance(t.ops[0], (ast.Is, ast.IsNot)) and isinstance(t.comparators[0], ast.Constant)
+                    and t.comparators[0].value is None and isinstance(t.left, ast.Name)):
+                continue
+            when_none, otherwise = (e.body, e.orelse) if isinstance(t.ops[0], ast.Is) else (e.orelse, e.body)
+            if not (isinstance(when_none, ast.Attribute) and isinstance(when_none.value, ast.Name) and when_none.value.id == "settings" and isinstance(otherwise, ast.Name)):
+                continue
+            n += 1
+            key = f"{f.relpath}::{f.qualname}::option::{when_none.attr}"
+            ok = t.left.id == otherwise.id == when_none.attr
+            obs.append(Ob("G1-option-resolution", key, f.relpath, e.lineno, f.qualname, ok,
+                          f"`{otherwise.id}` defaults to settings.{when_none.attr} when it is None" if ok else
+                          f"`{src(e)[:80]}` tests `{t.left.id}` but uses `{otherwise.id}` / settings.{when_none.attr}: an explicitly given value is dropped or None is passed on"))
+    if n < 2:
+        raise AnalysisError(f"G1-option-resolution: only {n} option resolutions found")
+    return obs
+
+
+def mut_option_resolution(repo: Repo) -> List[Mutant]:
+    ov = text_mutant(repo, CY, "self.numeric_eps = settings.numeric_eps if numeric_eps is None else numeric_eps", "self.numeric_eps = settings.numeric_eps if numeric_croots is None else numeric_eps")
+    return [Mutant("eps-resolved-on-the-wrong-parameter", ov, "fire", "option::numeric_eps", control=True)] if ov else []
+
+
 def rule_dispatch(repo: Repo) -> List[Ob]:
     f = repo.function(RS, "RecurrenceSolver.__init__")
     c = cfg_of(f.node)
@@ -304,5 +411,7 @@ RULES = {
     "FIT": Rule(R, rule_fit, 2, "the constants are fitted on (ansatz at n, n-th iterate) pairs taken after the transient of the root 0", mut_fit, soft=True),
     "GEOMSUM": Rule(R, rule_geometric_sum, 1, "the summation solver is the geometric-sum identity (exponents, bounds and start index compared as rational functions)", mut_geometric_sum, soft=True),
     "SPECIALCASES": Rule(R, rule_special_cases, 1, "the summation solver's scan for special cases looks at every iteration below the validity bound", mut_special_cases, soft=True),
+    "VALIDFROM": Rule(R, rule_valid_from, 1, "the validity start of a combined closed form is the maximum over its dependencies", mut_valid_from, soft=True),
+    "OPTRESOLVE": Rule("G1-option-resolution", rule_option_resolution, 2, "`x = settings.x if x is None else x`: tested parameter, used parameter and setting agree", mut_option_resolution, soft=True),
     "SOLVERDISPATCH": Rule(R, rule_dispatch, 1, "the summation solver is chosen only under recurrences.is_acyclic", mut_dispatch, soft=True),
 }
